@@ -24,7 +24,7 @@ structure Pat where
   text : List Char
   kind : Kind
   identLike : Bool       -- LITERAL_IDENTIFIER.is_match(pattern): needs the boundary lookahead
-deriving Repr
+deriving Repr, DecidableEq
 
 def patterns : List Pat :=
   Generated.patternTable.map fun x => ⟨x.1.map Char.ofNat, Kind.ofString x.2.1, x.2.2⟩
